@@ -41,7 +41,7 @@ CLAIMED = {
             "Twelve theorems (Props/C06.v) for all environments, literals, operators and trees of any depth. Literal text parsing (int()/float()) is glue done by the harness; consumers (inheritance, calibrator choice) are exercised under C05/C08.",
             "Trusted: Coq kernel+VM; Python's int()/float() literal parsing; correspondence sampling. Genuine defects F3, F4, F16 found by this check and repaired by fix: commits.",
             "DESIGN.md section 4 C06"),
-    "C04": ("Coq proof (unsigned/two's-complement/byte-reversed integer value of the bit slice, cursor, class; float glue at every offset and order; all 65536 binary16 patterns by kernel computation against Flocq's binary16 decoder; the exact real value of every finite binary16/32/64 pattern as the standard defines it from the bit fields, infinities/NaN, and faithfulness of the 64-bit carrier) + kernel-evaluated correspondence with IntegerDataEncoding/FloatDataEncoding.parse_value, bit-exact against struct",
+    "C04": ("Coq proof (unsigned/two's-complement/byte-reversed integer value of the bit slice, cursor, class; float glue at every offset and order; all 65536 binary16 patterns by kernel computation against Flocq's binary16 decoder; the exact real value of every finite binary16/32/64 pattern as the standard defines it from the bit fields, infinities/NaN, and faithfulness of the 64-bit carrier) + translator: _twos_complement regenerated into Gallina from the current source and proved equal to the model on every run + kernel-evaluated correspondence with IntegerDataEncoding/FloatDataEncoding.parse_value, bit-exact against struct",
             "Theorems C04_uint, C04_sint, C04_signed_range, C04_lsb_uint, C04_lsb_sint, C04_float_glue, C04_half_exhaustive (bound 2^16 stated), C04_ieee_value, C04_ieee_special, C04_carrier_faithful. partial: that struct.unpack implements the IEEE meaning, and the MIL-1750A pattern, are tied by the bit-exact correspondence (class boundaries, NaNs, subnormals, random).",
             "Trusted: Coq kernel+VM; Flocq 4.1 (its definitions depend on the standard library's real-number axioms, listed by Print Assumptions); struct.unpack.",
             "DESIGN.md section 4 C04"),
